@@ -50,7 +50,8 @@ CInit(cf, active) ==
       posOK  |-> TRUE,       \* positions are within what the reference printer decides
       shifted |-> FALSE,     \* the file has re-based X, Y or Z with G92 (discriminator D11)
       sc03   |-> TRUE,       \* C03 quantifier (no G28 / G92 XYZ / M206 in an open episode)
-      scE    |-> TRUE,       \* C04/C05 quantifier (matched unmixed cycles; C04 also eabsOK)
+      scE    |-> TRUE,       \* C05 quantifier (matched cycles of one kind)
+      scM    |-> TRUE,       \* C04 quantifier (matched cycles, E-only or firmware; with eabsOK)
       eabsOK |-> TRUE,       \* the extruder has been in absolute mode throughout
       gr     |-> 0,          \* ghost retraction cycle: 0 none, n > 0 E-only amount, -1 firmware
       gk     |-> "n",        \* retraction kind used so far: n(one) e(-only) f(irmware)
@@ -135,27 +136,31 @@ TravelOK(phs, zprev, ztarget, tol) ==
 (***************************************************************************)
 (* Ghost retraction-cycle bookkeeping: decides whether the program is      *)
 (* still inside the quantifier of C04 / C05 ("matched, equal-length        *)
-(* retract/recover cycles, E-only or firmware, not mixed").  Equal-length  *)
-(* is read narrowly: every E-only cycle of the program has the same        *)
-(* length (the narrow reading can only silence a monitor).                 *)
-(* Returns [ok, gr, gk, ga].                                               *)
+(* retract/recover cycles, E-only or firmware", C05 adds "not mixed").     *)
+(* Equal-length is read narrowly: every E-only cycle of the program has    *)
+(* the same length (the narrow reading can only silence a monitor).        *)
+(* Returns [ok, gr, gk, ga, mix] -- mix: this cycle is of another kind     *)
+(* than the previous one (ends C05's scope scE, not C04's scM).            *)
 (***************************************************************************)
 CycleStep(cs, c, g0, g1, isMove) ==
     LET de == g1.fil - g0.fil
         eOnly == IsLinear(c) /\ ~HasXYZ(c)
-        same == [ok |-> TRUE, gr |-> cs.gr, gk |-> cs.gk, ga |-> cs.ga]
-        bad == [ok |-> FALSE, gr |-> cs.gr, gk |-> cs.gk, ga |-> cs.ga]
+        same == [ok |-> TRUE, gr |-> cs.gr, gk |-> cs.gk, ga |-> cs.ga, mix |-> FALSE]
+        bad == [ok |-> FALSE, gr |-> cs.gr, gk |-> cs.gk, ga |-> cs.ga, mix |-> FALSE]
     IN  IF c.code \in {"M82", "M83"} THEN (IF cs.gr = 0 THEN same ELSE bad)
         ELSE IF c.code = "G10" /\ ~(Seen(c, "P") \/ Seen(c, "L")) THEN
-            IF cs.gr = 0 /\ cs.gk # "e" THEN [ok |-> TRUE, gr |-> -1, gk |-> "f", ga |-> cs.ga]
+            IF cs.gr = 0
+            THEN [ok |-> TRUE, gr |-> -1, gk |-> "f", ga |-> cs.ga, mix |-> cs.gk = "e"]
             ELSE bad
         ELSE IF c.code = "G11" THEN
-            IF cs.gr = -1 THEN [ok |-> TRUE, gr |-> 0, gk |-> cs.gk, ga |-> cs.ga] ELSE bad
+            IF cs.gr = -1 THEN [ok |-> TRUE, gr |-> 0, gk |-> cs.gk, ga |-> cs.ga, mix |-> FALSE]
+            ELSE bad
         ELSE IF eOnly /\ de < 0 THEN
-            IF cs.gr = 0 /\ cs.gk # "f" /\ (cs.ga = 0 \/ cs.ga = -de)
-            THEN [ok |-> TRUE, gr |-> -de, gk |-> "e", ga |-> -de] ELSE bad
+            IF cs.gr = 0 /\ (cs.ga = 0 \/ cs.ga = -de)
+            THEN [ok |-> TRUE, gr |-> -de, gk |-> "e", ga |-> -de, mix |-> cs.gk = "f"] ELSE bad
         ELSE IF eOnly /\ de > 0 THEN
-            IF cs.gr = de THEN [ok |-> TRUE, gr |-> 0, gk |-> cs.gk, ga |-> cs.ga] ELSE bad
+            IF cs.gr = de THEN [ok |-> TRUE, gr |-> 0, gk |-> cs.gk, ga |-> cs.ga, mix |-> FALSE]
+            ELSE bad
         ELSE IF isMove /\ de > 0 THEN
             IF cs.gr = 0 THEN same ELSE bad
         ELSE IF isMove /\ de < 0 THEN bad
@@ -206,10 +211,11 @@ GStepActive(cs, ev, q, tol) ==
         sc03_1 == cs.sc03 /\ ~(cs.ep /\ (c.code \in {"G28", "M206"}
                                           \/ (c.code = "G92" /\ HasXYZ(c))))
         cyc   == CycleStep(cs, c, g0, g1, isMove)
-        scE1  == cs.scE /\ cyc.ok /\ ~anyBig
+        scE1  == cs.scE /\ cyc.ok /\ ~cyc.mix /\ ~anyBig
+        scM1  == cs.scM /\ cyc.ok /\ ~anyBig
         eabsOK1 == cs.eabsOK /\ g1.eabs /\ c.code \notin {"M82", "M83"} /\ ~anyBig
         \* C04 quantifies over absolute extrusion mode only; C05 (cycle scope scE) does not
-        scA1  == scE1 /\ eabsOK1
+        scA1  == scM1 /\ eabsOK1
         maxret1 == Max2(cs.maxret, Ret(g1))
         g10sent == {k \in 1..nout : outs[k].code = "G10"
                                       /\ ~(Seen(outs[k], "P") \/ Seen(outs[k], "L"))}
@@ -322,7 +328,7 @@ GStepActive(cs, ev, q, tol) ==
         >>
     IN  [cs EXCEPT
            !.n = n, !.gh = g1, !.ph = p1, !.ep = ep1, !.clean = clean1,
-           !.posOK = posOK1, !.sc03 = sc03_1, !.scE = scE1, !.eabsOK = eabsOK1,
+           !.posOK = posOK1, !.sc03 = sc03_1, !.scE = scE1, !.scM = scM1, !.eabsOK = eabsOK1,
            !.shifted = shifted1,
            !.gr = cyc.gr, !.gk = cyc.gk, !.ga = cyc.ga, !.maxret = maxret1, !.g10p = g10p1,
            !.led = led1,
@@ -401,7 +407,7 @@ AtStep(cs, ev, q, tol, sameState) ==
           <<"C03", "C03.sync.z", (mon /\ closing /\ cs.sc03) => SyncZ(p1, g, tol)>>,
           <<"C03", "C03.travel",
              (mon /\ closing /\ cs.sc03) => TravelOK(phs, cs.ph.z, g.z, tol)>>,
-          <<"C04", "C04a.e_coordinate", (mon /\ closing /\ cs.scE /\ cs.eabsOK) => Near(p1.e, g.e, tol)>>,
+          <<"C04", "C04a.e_coordinate", (mon /\ closing /\ cs.scM /\ cs.eabsOK) => Near(p1.e, g.e, tol)>>,
           <<"C05", "C05a.deeper",
              cs.scE => \A k \in 2..Len(phs) : Ret(phs[k]) <= cs.maxret + tol>>,
           <<"C05", "C05b.shallower", cs.scE => Ret(p1) >= Ret(g) - tol>>,
@@ -444,7 +450,7 @@ NotesOK(notes, before, after) ==
 \* the tracking state of a new print: nothing is known, nothing is owed
 ResetTracking(cs) ==
     [cs EXCEPT !.ph = P0, !.gh = P0, !.en = TRUE, !.ep = FALSE, !.clean = TRUE,
-               !.posOK = TRUE, !.shifted = FALSE, !.sc03 = TRUE, !.scE = TRUE, !.eabsOK = TRUE,
+               !.posOK = TRUE, !.shifted = FALSE, !.sc03 = TRUE, !.scE = TRUE, !.scM = TRUE, !.eabsOK = TRUE,
                !.gr = 0, !.gk = "n", !.ga = 0, !.maxret = 0, !.g10p = "", !.led = <<>>]
 
 EndEvents == {"PrintDone", "PrintFailed", "PrintCancelling", "PrintCancelled", "Error"}
@@ -501,7 +507,7 @@ HookStep(cs, ev, q, tol) ==
           <<"C15", "C15.e", (mon /\ closing /\ cs.scE /\ cs.eabsOK) => Near(p1.e, g.e, tol)>>,
           <<"C03", "C03.sync.xy", (mon /\ closing /\ cs.sc03) => SyncXY(p1, g, tol)>>,
           <<"C03", "C03.sync.z", (mon /\ closing /\ cs.sc03) => SyncZ(p1, g, tol)>>,
-          <<"C04", "C04a.e_coordinate", (mon /\ closing /\ cs.scE /\ cs.eabsOK) => Near(p1.e, g.e, tol)>>,
+          <<"C04", "C04a.e_coordinate", (mon /\ closing /\ cs.scM /\ cs.eabsOK) => Near(p1.e, g.e, tol)>>,
           <<"C07", "C07.form",
              \A k \in 1..nout :
                 (~TxtIn(outs[k].txt, cf.exit)
